@@ -19,8 +19,35 @@ def run(ctx, model_ok=True):
         lines.append(f"probin pb{i} {rng.choice([0, 768, 8192, 65535, 65536, 73728, 1 << 20])} {hexs(bytes(rng.randrange(256) for _ in range(pn)))}")
     big = bytes(rng.randrange(256) for _ in range(65536))
     lines += [f"dosbin bb0 768 {hexs(big)}", f"dosbin bb1 768 {hexs(big[:-1])}", f"dostok tb0 {hexs(big)}", f"dostok tb1 {hexs(big[:-1])}"]
+    # Pascal text codec: lines with indentation runs around the count limits, page boundaries (1024), CR LF, lines longer than a page (refused),
+    # text without a final newline, bytes outside ASCII; decoding of arbitrary bytes (counts below 32, NUL, DEL, high bit)
+    def ptext():
+        t = bytearray()
+        for _ in range(rng.choice([1, 2, 5, 20, 60])):
+            if rng.random() < 0.4:
+                t += b' ' * rng.choice([1, 2, 3, 31, 94, 95, 96, 222, 223, 224, 225, 300])
+            n = rng.choice([0, 1, 10, 60, 70, 500, 1000, 1019, 1020, 1021, 1022, 1023, 1024, 1030]) if rng.random() < 0.3 else rng.randrange(0, 80)
+            t += bytes(rng.randrange(0x20, 0x7f) for _ in range(n))
+            t += rng.choice([b'\n', b'\n', b'\n', b'\r\n', b'\r'])
+        r = rng.random()
+        if r < 0.1:
+            t = t.rstrip(b'\r\n')
+        elif r < 0.15:
+            t[rng.randrange(len(t))] = rng.choice([0xc3, 0x7f, 0x10, 0x00, 0x09])
+        return bytes(t[:7000])
+    for i in range(40 if quick else 400):
+        t = ptext()
+        try:
+            t.decode('utf-8')
+        except UnicodeDecodeError:
+            t = t.replace(b'\xc3', b'\xc3\xa9')
+        lines.append(f"pasenc pe{i} {hexs(t) if t else '-'}")
+    for i in range(30 if quick else 300):
+        n = rng.choice([0, 1, 2, 5, 100, 1024, 1500])
+        d = bytes(rng.choice([0x10, 0x0d, 0x00, 0x1f, 0x20, 0x21, 0x7e, 0x7f, 0x80, 0xff, 0x41, rng.randrange(256)]) for _ in range(n))
+        lines.append(f"pasdec pd{i} {hexs(d) if d else '-'}")
     if model_ok:
-        fw.correspond(ctx, 'pack-pieces (desequence chunking, DOS binary/token headers vs Pack/Fimg.v)', lines)
+        fw.correspond(ctx, 'pack-pieces (desequence chunking, DOS binary/token headers vs Pack/Fimg.v; Pascal text encoder and decoder vs Pack/PascalText.v)', lines)
     olines = []
     k = 0
     for fs in ['dos3x', 'prodos', 'pascal', 'cpm', 'fat']:
